@@ -842,6 +842,13 @@ class CircuitTemplate(AbstractBaseTemplate):
         # go through node templates and transform them into intermediate representations
         nodes = self._apply_nodes(node_keys=self.get_nodes(['all']), values=values, vectorize=vectorize)
 
+        # process PopulationTemplate instances and their Connectivity objects (before the ordinary edges are grouped: an
+        # edge may start or end at a variable of a population, whose unit indices have to be known by then)
+        pop_edges = []
+        if self.populations or self.connections:
+            pop_nodes, pop_edges = self._apply_populations_and_connections(values=values)
+            nodes.update(pop_nodes)
+
         # reformat edge templates to EdgeIR instances
         #############################################
 
@@ -956,11 +963,7 @@ class CircuitTemplate(AbstractBaseTemplate):
                 warn(PyRatesWarning(f'The values passed for the edge {key} were not applied: no (group of) edges with '
                                     f'this source and target variable exists in the translated network.'))
 
-        # process PopulationTemplate instances and their Connectivity objects
-        if self.populations or self.connections:
-            pop_nodes, pop_edges = self._apply_populations_and_connections(values=values)
-            nodes.update(pop_nodes)
-            edges.extend(pop_edges)
+        edges.extend(pop_edges)
 
         # instantiate an intermediate representation of the circuit template
         self._ir = CircuitIR(label, nodes=nodes, edges=edges, verbose=verbose, step_size_adaptation=adaptive_steps,
